@@ -409,6 +409,29 @@ def frame_of(body_items):
     return wire.frame(list(body_items))
 
 
+def raw_frame(body, threshold=None):
+    """frame an arbitrary body (id + payload items) the way a server does:
+    no data-length field without compression; otherwise stored below the
+    threshold, deflated above it, either at equality (an input)"""
+    import minecraft.networking.packets.packet as pk
+    from ref import wire
+    body = list(body)
+    if threshold is None:
+        return wire.frame(body)
+    ctx = Ctx.cur
+    n = len(body)
+    if bool(threshold == -1) or bool(threshold > n):
+        return wire.frame([0] + body)
+    if bool(threshold == n):
+        k = ctx.env['at_threshold'] = ctx.env.get('at_threshold', -1) + 1
+        if not ctx.bool('compress_at_threshold_%d' % k):
+            return wire.frame([0] + body)
+    concrete = all(isinstance(b, int) for b in body)
+    z = list(bytes_items(pk.compress(
+        bytes(body) if concrete else SBytes(body).fold())))
+    return wire.frame(wire.leb128_const(n) + z)
+
+
 def packet_frame(packet, context, zl=None, threshold=None):
     """serialise a server->client packet with pyCraft's own writer (C01
     checks that writer against the reference frame format)"""
